@@ -1,0 +1,3 @@
+// Package verifx re-exports the witness implementation for verification
+// harnesses; it is empty unless built with the "verif" build tag.
+package verifx
